@@ -571,7 +571,15 @@ pub fn finish(ctx: &Ctx, mon: &Mon, spec: Spec) -> i32 {
     coverage.insert("distinct_nontrivial".into(), json!(g.nontrivial.len() as u64 + g.enumerated_distinct));
     coverage.insert("distinct_cases".into(), json!(g.distinct.len()));
     coverage.insert("rule".into(), json!(spec.rule));
-    coverage.insert("samples".into(), json!(g.samples));
+    let mut samples = g.samples.clone();
+    if samples.is_empty() {
+        // a run that stopped at its first violation may not have reached its sampling point: the
+        // violating case itself is an actual case of this run
+        if let Some(v) = g.violations.first() {
+            samples.push(json!({"case": v.case_id, "violating_case": v.summary, "detail": v.detail}));
+        }
+    }
+    coverage.insert("samples".into(), json!(samples));
     if spec.exhaustive {
         coverage.insert("exhaustive".into(), json!(true));
     }
